@@ -1,9 +1,9 @@
 SPECIFICATION Spec
 CONSTANTS
-  NormBug = TRUE
+  NormBug = FALSE
   RootCheck = TRUE
-  Segs = {1,2,3,4,5,6,7,8,9,10,11,12}
+  Segs = {19,20,21,4,2,5}
   MaxLen = 5
-  Cfgs = {4,5,6,7}
+  Cfgs = {4,5}
 INVARIANTS InsideInv NoEscape
 CHECK_DEADLOCK FALSE
